@@ -159,8 +159,8 @@ def eval_polars(case):
 
 
 FAMILIES = [
-    Family("pandas", evaluate, strategy=strategy, n_quick=600, n_thorough=5000, shards_quick=4, shards_thorough=16,
+    Family("pandas", evaluate, strategy=strategy, n_quick=1200, n_thorough=5000, shards_quick=4, shards_thorough=16,
            required_labels=["entry=column", "entry=index", "kind=series", "outcome=SchemaError", "outcome=SchemaErrors",
                             "outcome=ok", "op=coerce", "op=default"]),
-    Family("polars", eval_polars, strategy=strat_polars, n_quick=400, n_thorough=4000, shards_quick=2, shards_thorough=8),
+    Family("polars", eval_polars, strategy=strat_polars, n_quick=800, n_thorough=4000, shards_quick=2, shards_thorough=8),
 ]
